@@ -974,3 +974,6 @@ def run(ctx, rep):
     # a label's offsets are applied to the text the project holds now: the parse they come from must be of that text
     from rules.c11 import rule_cache
     rule_cache(ctx, rep, rid="R-C05-cache")
+    # offsets are computed on the pre-processed text and shown on the original: only the (length-preserving) comment blanker may touch the text
+    from rules.c08 import rule_prestep
+    rule_prestep(ctx, rep, rid="R-C05-prestep")
